@@ -306,6 +306,10 @@ func (s *Sim) next(draining bool) (Decision, bool) {
 
 func (s *Sim) runBody() {
 	cfg := s.Cfg
+	if cfg.Profile == "nats" {
+		s.runNATS()
+		return
+	}
 	s.now0 = time.Now()
 	s.keepLines = cfg.KeepLines
 	s.installHooks()
